@@ -9,8 +9,9 @@ from layers.fvm2d import layer_rhs2d
 
 MODULE = 'Flowdyn.Props.C11'
 THEOREMS = core.theorems_in(['C11.lean'], 'Flowdyn.C11') + ['Flowdyn.rhs_periodic_uniform_eq_cyc']
-AUDIT_IMPORTS = ['Flowdyn.Lemmas.Cyclic1D']
-PARTIAL = {"2D": "the 2D directional stencils (km,kp=(1-/+k)/4) are checked on the implementation by the sweep; theorem pending the 2D model",
+AUDIT_IMPORTS = ['Flowdyn.Lemmas.Cyclic1D', 'Flowdyn.Props.C11b']
+THEOREMS = THEOREMS + core.theorems_in(['C11b.lean'], 'Flowdyn.C11')
+PARTIAL = {"2D": "proved on the 2D model (C11b): constants at every face, linear exactness in x, y and x+y at interior faces for every kappa, the directional stencils with sharp index ranges, one-sided stencils next to open boundaries, periodic stencils at all faces",
            "smooth limiters": "MUSCL with vanalbada/vanleer is linear-exact only up to the C12 regularisation bound (theorems vanalbada_self_bound / vanleer_self_bound)"}
 LEVEL_NOTE = "constant/linear exactness on any mesh and the circulant kappa stencil for all data and all n>=1 proved through the cyclic refinement theorem"
 
